@@ -465,7 +465,7 @@ def main(tier, seed, replay, jobs, scale):
         import json
         cases = [tuple(json.load(open(replay))["replay"]["case"])]
     else:
-        n = int((200 if tier == "quick" else 1500) * scale)
+        n = int((200 if tier == "quick" else 12000) * scale)
         cases = [(seed, i, tier) for i in range(n)]
     results = list(par.run_cases(run_case, cases, jobs))
     par.absorb(run, results)
